@@ -381,7 +381,13 @@ def accesses(rec, M, hid, gen, mngr, S, Mm, A, wit, layout_diff):
         try:
             back = hd.expr_to_c_and_types(gots)
         except Exception as exc:
-            afail("expr_to_c raises %s at %s" % (type(exc).__name__, _frame(exc)),
+            cls = ""
+            if isinstance(exc, RuntimeError) and "Missing reduction rule" in str(exc) and \
+                    "[0]" in ch.segments[-1]["designator"]:
+                # no access at all is found for a read that goes through element 0 of an array
+                # of aggregates/arrays (its address is also the array's and the container's)
+                cls = " [Missing reduction rule, through element 0 of an array]"
+            afail("expr_to_c raises %s at %s%s" % (type(exc).__name__, _frame(exc), cls),
                   "%r for %s (from %s)" % (exc, gots, ch.c))
             continue
         ok = False
